@@ -27,7 +27,7 @@ META = {
         'Reply::continues() against Some(true) (promoted constant read from the MIR) on the right polarity, the transport-error '
         'arm sets done; every path from an increment to the return re-evaluates exhaustion (index vs owed count -> done); '
         '(R06.5) one receive per poll: the receive future is created only in the Init state and the state returns to Init on '
-        'every path that yields an item. Not decided: item-by-item equality with a server script under every chunking.'),
+        'every path that yields an item; (R06.6) the inbound framing rules of C01 (same rule code): each receive consumes exactly one frame. Not decided: item-by-item equality with a server script under every chunking.'),
     'assumptions': ['Connection::receive_reply consumes exactly one frame per successful or failed decode (C01)',
                     'typestate: the stream borrows the connection mutably for its lifetime, the chain is consumed by send (type checker)'],
 }
@@ -477,4 +477,14 @@ def check(fx, rep, tier):
         check_chain(fx, rep, crate, cfg)
         check_stream(fx, rep, crate, cfg)
     check_proxy_template(fx, rep)
+    # R06.6: the stream consumes exactly one frame per receive only if the inbound framing rules hold (same rule code as C01)
+    rep.rule('R06.6', 'inbound framing rules of C01 (each receive consumes exactly one frame; no early return with a partial frame buffered)')
+    import engine, c01
+    sub = engine.Report('C01', 'quick')
+    c01.check(fx, sub, 'quick')
+    for i in sub.insts:
+        (rep.ok if i.ok else rep.bad)('R06.6', i.rule + '|' + i.key, i.where, i.msg, i.detail)
+    for rule, (fl, what) in sub.floors.items():
+        if sub.count(rule) < fl:
+            rep.bad('R06.6', 'floor|' + rule, '-', 'anchor lost in imported rule %s: expected %d %s' % (rule, fl, what))
     return META
